@@ -2,6 +2,7 @@ import PqV.Lemmas.Plain
 import PqV.Lemmas.Footer
 import PqV.Spec.File
 import PqV.Lemmas.WritePage
+import PqV.Lemmas.Tiles
 /-!
 # C02 — written files are valid Parquet that an independent reader decodes identically
 
@@ -73,6 +74,20 @@ theorem nulls_and_values (m : Nat) (defs : List Nat) (vals : List Cell)
     (scatter m defs vals).length = defs.length ∧
     (scatter m defs vals).filter (fun c => decide (c ≠ Cell.null)) = vals :=
   ⟨scatter_length m defs vals, scatter_filter m defs vals h hnn⟩
+
+/-- **what the validator accepts as the pages of a chunk does tile it**: if `chunkPages` (the page walk `Spec.File` runs on
+    the real bytes of every column chunk) returns a page list for the byte range `[start, stop)`, then the first page header
+    starts at `start`, every next header starts exactly where the previous page's payload ends (header offset + header
+    length + `compressed_page_size`), the last payload ends at `stop` — no gap, no overlap, no overrun — and every entry is
+    what `parsePage` reads at its offset.  So a file whose pages do not tile a chunk, or whose recorded
+    `total_compressed_size` / offsets do not describe the bytes present, cannot be accepted. -/
+theorem accepted_pages_tile_the_chunk (file : Array Nat) (fuel start stop : Nat) (ps : List PageInfo)
+    (h : chunkPages file fuel start stop [] = .ok ps) :
+    Tiles start stop ps ∧ ∀ p ∈ ps, parsePage file p.hdrOff = .ok p := by
+  obtain ⟨tail, hps, ht, hall⟩ := chunkPages_acc file fuel start stop [] ps h
+  simp only [List.reverse_nil, List.nil_append] at hps
+  subst hps
+  exact ⟨ht, hall⟩
 
 /-! ### non-vacuity -/
 example : levelsV1 1 5 (leBytes 4 2 ++ encodeRuns 1 [Run.bp [1, 0, 1, 1, 0, 0, 0, 0]] ++ [9])
